@@ -1,7 +1,7 @@
 """Implementation side of the C10 correspondence check.  Run under /venv with the repo on PYTHONPATH.
 
 stdin : one JSON case per line   {"m": method, "args": [ARG...]}
-        ARG  := {"p": SURF} | {"call": method, "args": [ARG...]} | {"ax": SURF} | {"d": [[id, SURF], ...]} | {"v": n}
+        ARG  := {"p": SURF} | {"call": method, "args": [ARG...]} | {"ax": SURF} | {"d": [[id, SURF], ...]} | {"v": n} | {"i": int} | {"l": [SURF...]}
         argv[1] (optional): Gen/PropLib.index.json (owner class of every method, symbol ids)
         SURF := ["ev",n] ["sv",n] ["sym",n] ["imp",a,b] ["app",a,b] ["ex",x,a] ["mu",x,a]
                 ["mv",id,ef,sf,pos,neg,holes] ["esub",p,x,q] ["ssub",p,x,q]
@@ -224,6 +224,10 @@ def main():
                 return {int(k): build(x) for k, x in a['d']}
             if 'v' in a:
                 return EVar(int(a['v']))
+            if 'i' in a:
+                return int(a['i'])
+            if 'l' in a:
+                return [build(x) for x in a['l']]
             if 'ax' in a:
                 p = build(a['ax'])
                 T.add_axiom(p)
